@@ -37,6 +37,8 @@ def rules(ctx):
     c058(ctx)
     c059(ctx)
     c0510(ctx)
+    from . import C08
+    C08.c086(ctx)    # the version a compaction installs derives from a snapshot taken inside the critical section that installs it
 
 
 def c055(ctx):
